@@ -135,6 +135,7 @@ func VerifC37Narrow(ls []VerifC37Listener, fs []VerifC37Forward) *VerifC37Result
 	for i := 0; i < len(ls)+1; i++ {
 		<-done
 	}
+	verifWaitIdle() // handleChannels has dealt with every forward it is going to deal with
 	return res
 }
 
